@@ -179,7 +179,7 @@ func init() {
 			finish := r.next()
 			p := parsed[ui]
 			host := -1
-			for h := 0; h <= simHosts; h++ {
+			for h := 0; h <= simHosts+1; h++ {
 				if p != nil && simHostPort(h) != "" && p.Host == simHostPort(h) {
 					host = h
 				}
